@@ -18,6 +18,15 @@ CLAIMED = {
     'C02': ('proof', 'precedence / associativity / parenthesis predicates of BinaryOperator and TypeCastExpression, the token-fusion '
                      'predicate and break_* predicates, and the dense/readable cursor operations carry contracts taken from the Lua '
                      'precedence table and lexer rules; proved for all operator pairs / all chars, cursor ops bounded'),
+    'C03': ('other', 'generator half only, bounded: the token-based writer appends exactly leading trivia ++ token text ++ trailing trivia, '
+                     'verbatim and in order, inserting nothing in the byte-for-byte situation; Token/Trivia::read return code[start..end]. '
+                     'The converter half (ast_converter records every token) is out of reach and stated as not covered'),
+    'C04': ('proof', 'Token/Trivia line accessors proved for all line numbers; replace_with_content / shift_token_line / replace_referenced_tokens '
+                     'keep or shift the recorded line (bounded in trivia count); writer invariant current_line == 1 + newlines written and '
+                     'newline padding up to the recorded line (bounded strings / padding distance)'),
+    'C18': ('other', 'bounded: trivia filters (clear_comments, clear_whitespaces, filter_comments) keep the code token and select exactly the '
+                     'right trivia; line-comment detection equals the long-bracket rule; the writer always breaks the line after a line comment '
+                     'before code. append_text_comment::text, the regex filter and the remove_spaces visitor are not covered'),
     'C08': ('proof', 'value-level kernel of the static evaluator (truthiness, and/or folding, raw equality over all doubles, string '
                      'order, length, maybe_metatable, multi-value test) against Lua 5.1 value semantics; a definite answer must be '
                      'the real one'),
